@@ -50,6 +50,10 @@ class FlowBase(Monitor):
     def check_other(self, g, pre, move, sim, res, post):
         return []
 
+    def on_rerun(self, g, pre, move, sim, res, post):
+        g["off"] = "rerun"
+        return []
+
     # -----------------------------------------------------------------------
     def on_step(self, pre, move, sim, res, post, ctx):
         g = sim.ghost[self.name]
@@ -117,7 +121,7 @@ class FlowBase(Monitor):
                 self.stats["trusted_conditions"] += info.get("trusted", 0)
                 out.extend(self.check_completion(g, info, pre, post, sim, res) or [])
             elif op == "rerun":
-                g["off"] = "rerun"
+                out.extend(self.on_rerun(g, pre, move, sim, res, post) or [])
             else:
                 out.extend(self.check_other(g, pre, move, sim, res, post) or [])
         except rm.RefViolation as e:
